@@ -122,7 +122,7 @@ def run(world, rep, tier, only=None):
                    "non-zero io_channel_flush maps to a non-zero return of sync_blockdev",
                    [("return line %d value %s" % (b[0].line, b[1]), b[2]) for b in bad[:2]] or None)
         # slot resolution must include the unix manager; wrapping managers forward
-        impls = prog.slots().get(("struct_io_manager", "flush"), set())
+        impls = prog.slot_names("struct_io_manager", "flush")
         rep.ob("C04.b", "struct_io_manager.flush:slot-resolution[%s]" % tag, "unix_flush" in impls,
                "flush slot resolves to %s" % sorted(impls))
         # the manager that ends at a file descriptor: C17.b's durability obligation is imported
